@@ -263,8 +263,19 @@ impl Transaction {
 			durability,
 		} = opts;
 
-		// Get the current visible sequence number as our start point.
-		let start_seq_num = core.seq_num();
+		// Get the current visible sequence number as our start point. A
+		// transaction that reads takes its snapshot right here, so that the
+		// horizon is read and registered in one step (see
+		// `SnapshotTracker::register_current`).
+		let mut snapshot = None;
+		let start_seq_num = if mode.is_write_only() {
+			core.seq_num()
+		} else {
+			let s = Snapshot::new_current(Arc::clone(&core));
+			let seq_num = s.seq_num;
+			snapshot = Some(s);
+			seq_num
+		};
 
 		// Register this txn's start_seq with the GC watermark tracker.
 		// Both read-write and write-only txns register here (write-only txns
@@ -277,11 +288,6 @@ impl Transaction {
 		let txn_guard = Some(core.active_txn_tracker.register(start_seq_num));
 		#[cfg(surrealkv_verif)]
 		crate::verif::yield_point("begin:tracked");
-
-		let mut snapshot = None;
-		if !mode.is_write_only() {
-			snapshot = Some(Snapshot::new(Arc::clone(&core), start_seq_num));
-		}
 
 		Ok(Self {
 			mode,
